@@ -193,6 +193,21 @@ def run(ctx, chk):
             variant, struct, sterm = unwrap_message(o.term)
             flat = flatten(sterm)
             shape = infer_shape(struct, flat, o)
+            # which optional branch is present is itself part of "decodes to the transmitted value":
+            # a transmitted second station / list element must not be dropped or invented
+            from ..spec import lengths as _len
+            ns = o.nset()
+            for nb in (ns.min(), min(ns.max(), 10 ** 6)):
+                if struct == "AssignmentModeCommand":
+                    want2 = 8 * nb - 92 >= 52
+                    chk.ob(shape["second"] == want2, "C04/branch/AssignmentModeCommand/second/%s/%s" % (nb if nb < 10 ** 6 else "large", shape["second"]),
+                           "AssignmentModeCommand [%s] at %s bytes: second station %s although %s" % (cfg, nb, "reported" if shape["second"] else "absent", "its 52 bits are present" if want2 else "its 52 bits are not present"))
+                for t_ in o.tset().values():
+                    wc = _len.expected_count(t_, nb)
+                    if wc is not None:
+                        gotc = shape.get("acks", shape.get("reservations"))
+                        chk.ob(gotc == wc, "C04/branch/%s/count/%s/%s" % (struct, nb if nb < 10 ** 6 else "large", gotc),
+                               "%s [%s] at %s bytes: %s list elements reported, %s complete elements transmitted" % (struct, cfg, nb, gotc, wc))
             exp = itu.expected_fields(struct, shape)
             if exp is None:
                 chk.ob(False, "C04/unknown-struct/%s" % struct, "no ITU layout for decoded struct %s" % struct)
